@@ -42,6 +42,11 @@ Theorem C01_tables_ok : tables_ok_exempt current = true.
 Proof. vm_compute. reflexivity. Qed.
 Print Assumptions C01_tables_ok.
 
+(* inside Atlas Search stages the operator table is consulted for every key: no leaf entry there exempts a user field by its name *)
+Theorem C01_no_bare_search_exemption : tables_ok_search_bare current = true.
+Proof. vm_compute. reflexivity. Qed.
+Print Assumptions C01_no_bare_search_exemption.
+
 Lemma current_no_empty_exempt : ~ In ("", Exempt) (all_entries current).
 Proof.
   intros H.
